@@ -151,7 +151,7 @@ def prepare(engine, chart, W, tag):
 def step_query(ec, fh, mode, variant=0, dvariant=None, witness=False, timeout=900, trace=False, chk=63, prop_beh='C01', with_mon=1, extra_defs=(), mem_gb=16, unwind=40):
     pre = fh.replace('_facts.h', '_pre.h')
     defs = ['ENGINE_C="%s"' % ec, 'FACTS="%s"' % fh, 'FACTS_PRE="%s"' % pre, 'MODE=%d' % mode, 'VARIANT=%d' % variant,
-            'DVARIANT=%d' % (variant if dvariant is None else dvariant), 'CHK=%d' % chk, 'PROP_BEH="%s"' % prop_beh, 'WITH_MON=%d' % with_mon, 'SCAP=8']
+            'DVARIANT=%d' % (variant if dvariant is None else dvariant), 'CHK=%d' % chk, 'PROP_BEH="%s"' % prop_beh, 'WITH_MON=%d' % with_mon, 'SCAP=8', 'IR_POOL']
     if witness:
         defs.append('WITNESS')
     defs += list(extra_defs)
@@ -240,13 +240,13 @@ def scenarios_header(sc, path):
     return path
 
 
-def native_run(engine, W, tag, fh, tb, sch, variant=1, dvariant=None, mode=1, chk=63, replay=None, replay_sc=None, seed=1, extra_defs=()):
+def native_run(engine, W, tag, fh, tb, sch, variant=1, dvariant=None, mode=1, chk=63, replay=None, replay_sc=None, seed=1, extra_defs=(), prop_beh='C03'):
     """Build and run the harness natively: the g++-compiled engine (libuscxml) + C++ harness + the same C driver.
     Used as translation validation (all scenarios, pseudo-random throw patterns) and to replay counterexamples."""
     pre = fh.replace('_facts.h', '_pre.h')
     obj = os.path.join(W, tag + '_main_native.o')
     defs = ['-DNATIVE', '-DFACTS="%s"' % fh, '-DFACTS_PRE="%s"' % pre, '-DSCENARIOS="%s"' % sch, '-DMODE=%d' % mode, '-DVARIANT=%d' % variant,
-            '-DDVARIANT=%d' % (variant if dvariant is None else dvariant), '-DCHK=%d' % chk, '-DPROP_BEH="C01"', '-DWITH_MON=1'] + ['-D' + d for d in extra_defs]
+            '-DDVARIANT=%d' % (variant if dvariant is None else dvariant), '-DCHK=%d' % chk, '-DPROP_BEH="%s"' % prop_beh, '-DWITH_MON=1'] + ['-D' + d for d in extra_defs]
     if engine == 'large':
         defs.append('-DENGINE_LARGE')
     if replay:
